@@ -178,6 +178,7 @@ def run_tests(wt, pkg, timeout=420):
 
 def one(job):
     pid, m, do_tests, base_tests = job
+    all_checks = ALL_CHECKS
     wt = tempfile.mkdtemp(prefix='mutsv-', dir='/tmp')
     os.rmdir(wt)
     evd = tempfile.mkdtemp(prefix='mutsvev-', dir='/tmp')
@@ -190,12 +191,22 @@ def one(job):
                 % (os.path.join(wt, 'src'), m.file[4:-3].replace('/', '.'))], timeout=120)
         if r.returncode:
             return pid, m, 'import-fails', '', ''
-        r = sh([os.path.join(VERIF, 'verify'), 'check', pid, '--repo', wt, '--evidence-dir', evd, '--replay-dir', evd],
-               timeout=900)
-        rules = sorted({l.split(': ', 1)[1].split(' / ')[0] for l in r.stdout.splitlines()
-                        if l.startswith('src/') and ': ' in l and ' / ' in l})
-        ae = [l for l in r.stdout.splitlines() if l.startswith('ANALYSIS-ERROR')][:1]
-        chk = {0: 'silent', 1: 'REPORTED ' + ','.join(rules), 2: 'exit2 ' + (ae[0][:100] if ae else '')}.get(r.returncode, 'exit%d' % r.returncode)
+        props_to_run = all_checks if all_checks else [pid]
+        worst = 0
+        rules = set()
+        ae = []
+        for q in props_to_run:
+            r = sh([os.path.join(VERIF, 'verify'), 'check', q, '--repo', wt, '--evidence-dir', evd, '--replay-dir', evd],
+                   timeout=900)
+            rules |= {l.split(': ', 1)[1].split(' / ')[0] for l in r.stdout.splitlines()
+                      if l.startswith('src/') and ': ' in l and ' / ' in l}
+            ae += [l for l in r.stdout.splitlines() if l.startswith('ANALYSIS-ERROR')][:1]
+            if r.returncode == 1:
+                worst = 1
+            elif r.returncode == 2 and worst == 0:
+                worst = 2
+        rules = sorted(rules)
+        chk = {0: 'silent', 1: 'REPORTED ' + ','.join(rules), 2: 'exit2 ' + (ae[0][:100] if ae else '')}.get(worst, 'exit%d' % worst)
         tests = ''
         if do_tests:
             pkg = test_package_of(m.file)
@@ -213,7 +224,11 @@ def one(job):
         shutil.rmtree(evd, ignore_errors=True)
 
 
+ALL_CHECKS = []
+
+
 def main():
+    global ALL_CHECKS
     a = sys.argv[1:]
     def opt(name, default):
         return a[a.index(name) + 1] if name in a else default
@@ -225,6 +240,8 @@ def main():
     do_tests = '--no-tests' not in a
     out_name = opt('--out', 'MUTATION_SURVEY.md')
     rnd = random.Random(seed)
+    only = opt('--only', None)   # comma separated `file-basename:Lnn:KIND`
+    only = set(only.split(',')) if only else None
     P = {json.loads(l)['id']: json.loads(l) for l in open(os.path.join(VERIF, 'properties.jsonl'))}
     claimed = [c['property_id'] for c in json.load(open(os.path.join(VERIF, 'MANIFEST.json')))['checks']]
     todo = []
@@ -246,7 +263,11 @@ def main():
                     pick.append(m)
             ms += pick[:per_file]
         rnd.shuffle(ms)
+        if only is not None:
+            ms = [m for m in ms if '%s:%s:%s' % (os.path.basename(m.file), m.descr.split(' ')[0], m.kind) in only]
         todo += [(pid, m) for m in ms[:per_prop]]
+    if '--all-checks' in a:
+        ALL_CHECKS = claimed
     base_tests = {}
     if do_tests:
         pkgs = sorted({test_package_of(m.file) for _, m in todo} - {None})
